@@ -455,6 +455,10 @@ def rule_is_ready(ctx: Ctx, out: Collector) -> None:
                 out.bad('EX-4', cons, p.loc(gpe, gpe.node), f'get_pool_executor hands out a {" / ".join(handed)} pool without checking that it is ready')
 
 
+class _FutureNeverSet(BaseException):
+    """StopIteration reached the future of a pool job: it is never completed, the awaiting task hangs."""
+
+
 def _dispatch_world(ctx: Ctx, is_coro: bool, tags: Tuple[str, ...], raises: Optional[str] = None):
     """run_node interpreted for one kind of node with an opaque body: -> list of (calls of the body, returned the body's value)
     over the resolutions.  The pool runs what it is handed in place (run_in_executor / submit + wrap_future)."""
@@ -478,7 +482,14 @@ def _dispatch_world(ctx: Ctx, is_coro: bool, tags: Tuple[str, ...], raises: Opti
             return tok
 
         def in_place(a, k):
-            return holder['interp'].call(a[0], list(a[1:]), dict(k))
+            # the pool runs what it is handed; its outcome travels back through a future - which cannot carry StopIteration
+            # (asyncio refuses it: the awaiting task is never woken)
+            try:
+                return holder['interp'].call(a[0], list(a[1:]), dict(k))
+            except ARaise as ex:
+                if str(ex.what).startswith('StopIteration'):
+                    raise _FutureNeverSet()
+                raise
         pool = AObj(('ext', 'Executor'), {'submit': AExt('world.submit')}, tag='pool')
         loop = AObj(('ext', 'Loop'), {'run_in_executor': AExt('world.run_in_executor')}, tag='loop')
         stubs: Dict[str, Any] = {}
@@ -501,9 +512,13 @@ def _dispatch_world(ctx: Ctx, is_coro: bool, tags: Tuple[str, ...], raises: Opti
                    'process_pool_registry': AObj(regs['process'], {}), 'threads_pool_registry': AObj(regs['thread'], {})}
         try:
             res = interp.call_unit(unit, [node, a1, a2], {'node_id': 'N', 'k': k1}, None, closure)
+        except _FutureNeverSet:
+            return len(calls) == 1, 'hang', len(calls)
         except ARaise as ex:
             if not raises:
                 raise
+            if raises == 'StopIteration':
+                return len(calls) == 1, str(ex.what), len(calls)
             return len(calls) == 1 and calls[0][0] == [a1, a2] and calls[0][1] == {'k': k1}, ex.obj is err, len(calls)
         return len(calls) == 1 and calls[0][0] == [a1, a2] and calls[0][1] == {'k': k1}, (res is tok) and not raises, len(calls)
     return enumerate_outcomes(run)
@@ -546,6 +561,21 @@ def rule_dispatch_transparent(ctx: Ctx, out: Collector) -> None:
                     problems.append(f'{label}: a body that raises {kind} is invoked {n_calls} times')
                 elif not same_exc:
                     problems.append(f'{label}: the {kind} a body raises is not what run_node raises')
+    # StopIteration of a synchronous body: converted before it reaches the future of the pool job (a conversion on the loop side
+    # of the future is never reached), so the pool modes end like the inline mode does - with an error, not with a hang
+    for label in ('inline (non_async)', 'thread pool', 'process pool'):
+        is_coro, tags = modes[label]
+        for o in _dispatch_world(ctx, is_coro, tags, raises='StopIteration'):
+            if o[0] != 'value':
+                problems.append(f'{label}, the body raises StopIteration: {o[1]}')
+                continue
+            _once, how, n_calls = o[1]
+            table[f'{label}, body raises StopIteration'] = f'{n_calls} invocation(s): {how}'
+            if how == 'hang':
+                problems.append(f'{label}: a body that raises StopIteration never completes the future of its pool job - the node hangs '
+                                f'(the other modes report an error)')
+            elif n_calls != 1:
+                problems.append(f'{label}: a body that raises StopIteration is invoked {n_calls} times')
     cons = f'{unit.module.name}::{unit.qualname}::all dispatch leaves pass (*args, **kwargs) and return the value unchanged'
     if not problems:
         out.ok('EX-5', cons, ctx.p.loc(unit, unit.node), f'{len(modes)} modes interpreted: coroutine, inline, thread pool, process pool', table=table)
